@@ -15,7 +15,7 @@ use write_fonts::{
     FontWrite, OtRound, dump_table, tables::variations::VariationRegion, validate::Validate,
 };
 
-use crate::error::Error;
+use crate::{error::Error, metrics_and_limits::checked_advance};
 
 /// Compute the final size of a table, after it has been serialized to bytes
 pub fn table_size<T>(table: &T) -> Result<usize, Error>
@@ -103,16 +103,22 @@ impl AdvanceDeltas {
             // Only compute metrics when needed (for vertical direction)
             // For horizontal, we just need glyph_instance.width which doesn't require metrics
             let advance = match self.direction {
-                DeltaDirection::Horizontal => glyph_instance.width.ot_round(),
+                DeltaDirection::Horizontal => {
+                    checked_advance(&glyph.name, "advance width", glyph_instance.width)?
+                }
                 DeltaDirection::Vertical => {
                     let metrics = self
                         .metrics_cache
                         .get(&loc)
                         .expect("metrics should be pre-computed for all glyph locations");
-                    glyph_instance.height(metrics) as f64
+                    checked_advance(
+                        &glyph.name,
+                        "advance height",
+                        glyph_instance.height_unrounded(metrics),
+                    )?
                 }
             };
-            advances.insert(loc, vec![advance]);
+            advances.insert(loc, vec![advance as f64]);
         }
         let name = glyph.name.clone();
         let i = self.deltas.len();
@@ -160,12 +166,19 @@ impl AdvanceDeltas {
                     }
                     // Only 1 value per region for our input
                     assert!(values.len() == 1, "{} values?!", values.len());
-                    Some((
+                    let delta: f64 = values[0].ot_round();
+                    if !(i16::MIN as f64..=i16::MAX as f64).contains(&delta) {
+                        return Some(Err(Error::OutOfBounds {
+                            what: format!("'{name}' advance delta"),
+                            value: delta.to_string(),
+                        }));
+                    }
+                    Some(Ok((
                         region.to_write_fonts_variation_region(&self.axes),
-                        values[0].ot_round(),
-                    ))
+                        delta as i16,
+                    )))
                 })
-                .collect(),
+                .collect::<Result<_, _>>()?,
         );
         Ok(())
     }
